@@ -190,14 +190,14 @@ Definition verdict_call (path : string) (route rk ri : Z) (args : list (Z * Z)) 
 
 (* ------------------------------------------------------- source text stream *)
 
-Definition pinned_sources : list (Z * list Z) := [
-  (10, [102; 117; 110; 99; 116; 105; 111; 110; 32; 102; 40; 41; 123; 97; 58; 32; 105; 102; 40; 49; 41; 32; 98; 114; 101; 97; 107; 32; 97; 59; 32; 114; 101; 116; 117; 114; 110; 32; 55; 125; 32; 116; 121; 112; 101; 111; 102; 32; 102; 40; 41]) (* function f(){a: if(1) break a; return 7} typeof f() *)
-].
+(* no source text is a known crash any more: every pinned witness is a regression case below *)
+Definition pinned_sources : list (Z * list Z) := [].
 
-(* witnesses of repaired findings (06c26f0, e04eec8, 11c8465, 8a02cb3, dae90c4, c76d7ee, 2cabc07: SyntaxError), with the
+(* witnesses of repaired findings (06c26f0, e04eec8, 11c8465, 8a02cb3, dae90c4, c76d7ee, 2cabc07: SyntaxError, aa97b99), with the
    outcome ES5 / the property asks for (8: the thrown object comes back as the error result): kept as
    regression cases, through Run *)
 Definition regression_sources : list (Z * list Z) := [
+  (0, [102; 117; 110; 99; 116; 105; 111; 110; 32; 102; 40; 41; 123; 97; 58; 32; 105; 102; 40; 49; 41; 32; 98; 114; 101; 97; 107; 32; 97; 59; 32; 114; 101; 116; 117; 114; 110; 32; 55; 125; 32; 116; 121; 112; 101; 111; 102; 32; 102; 40; 41]) (* function f(){a: if(1) break a; return 7} typeof f() *);
   (5, [110; 101; 119; 32; 70; 117; 110; 99; 116; 105; 111; 110; 40; 34; 125; 41; 44; 40; 102; 117; 110; 99; 116; 105; 111; 110; 40; 41; 123; 34; 41]) (* new Function("}),(function(){") *);
   (5, [110; 101; 119; 32; 70; 117; 110; 99; 116; 105; 111; 110; 40; 34; 97; 34; 44; 32; 34; 125; 41; 44; 40; 102; 117; 110; 99; 116; 105; 111; 110; 40; 41; 123; 34; 41]) (* new Function("a", "}),(function(){") *);
   (0, [43; 83; 116; 114; 105; 110; 103; 46; 102; 114; 111; 109; 67; 104; 97; 114; 67; 111; 100; 101; 40; 52; 57; 41]) (* +String.fromCharCode(49) *);
